@@ -28,12 +28,38 @@ use crate::vt::VT;
 pub enum Kind {
     Store,
     Dump,
+    /// open a store, append twice (a chunk rotation: the worker has a tail
+    /// write and a file switch queued), flush without waiting, drop
+    StoreWrite,
 }
 
 fn contender(kind: Kind, dir: String, out: Arc<Mutex<Vec<(usize, bool)>>>, me: usize) {
     let cfg = Cfg::records(3);
     sched::op_gate("attempt", OpGate::Always, 0);
     match kind {
+        Kind::StoreWrite => match open_store(&dir, &cfg) {
+            Ok(mut rl) => {
+                use raft_log::api::raft_log_writer::RaftLogWriter;
+                out.lock().unwrap().push((me, true));
+                sched::note(format!("acquired {}", me));
+                let st = crate::sut::mstate(&rl);
+                let t = st.last.map(|l| l.0).unwrap_or(1);
+                let mut next = crate::model::next_index(st.last.as_ref());
+                for _ in 0..2 {
+                    sched::op_gate("append", OpGate::Always, 0);
+                    let _ = rl.append(vec![((t, next), format!("w{}-{}", me, next))]);
+                    next += 1;
+                }
+                sched::op_gate("flush", OpGate::Always, 0);
+                let _ = rl.flush(None);
+                sched::op_gate("release", OpGate::Always, 0);
+                sched::note(format!("releasing {}", me));
+                let inst = sched::current_inst();
+                drop(rl);
+                sched::mark_sender_dropped(inst);
+            }
+            Err(_) => out.lock().unwrap().push((me, false)),
+        },
         Kind::Store => match open_store(&dir, &cfg) {
             Ok(rl) => {
                 out.lock().unwrap().push((me, true));
@@ -68,9 +94,12 @@ pub fn run(rep: &Reporter, thorough: bool) -> (Value, Option<String>) {
             vec![Kind::Dump, Kind::Store],
             vec![Kind::Store, Kind::Store, Kind::Dump],
             vec![Kind::Store, Kind::Store, Kind::Store],
+            vec![Kind::StoreWrite, Kind::Dump],
+            vec![Kind::StoreWrite, Kind::Store],
+            vec![Kind::StoreWrite, Kind::StoreWrite],
         ]
     } else {
-        vec![vec![Kind::Store, Kind::Store], vec![Kind::Store, Kind::Dump]]
+        vec![vec![Kind::Store, Kind::Store], vec![Kind::Store, Kind::Dump], vec![Kind::StoreWrite, Kind::Dump]]
     };
     let mut executions = 0u64;
     let mut steps = 0u64;
